@@ -14,6 +14,7 @@ from harness import layoutlib as L
 from harness import stackgen as G
 from harness import iolib as IO
 from harness.props import c12 as H
+from harness.props import c05 as CV
 
 META = {
     "drivers": ["heapcheck", "evalcheck", "iocheck"],
@@ -188,6 +189,22 @@ def src_layout(ctx, corr, cfgs, rw, vg):
                 lambda j, cfg, sub=sub: {"source": "layout", "rw": list(sub[j]), "cfg": cfg})
 
 
+def src_convert(ctx, corr, cfgs, conv, vg):
+    """layout conversions: the answer contains a digest of the whole target storage, padding cells included — a cell the
+    converting constructor leaves uninitialised shows up as a difference between the builds (and under valgrind)"""
+    real = [c for c in cfgs if c != "vg"]
+    variants = sorted({v for v, _ in conv})
+    exes = CV.build(ctx, [(v, cfg) for v in variants for cfg in real])
+    for v in variants:
+        ops = [op for vv, op in conv if vv == v]
+        lines = [CV.impl_line(op) for op in ops]
+        outs = {cfg: C.run_lines(exes[(v, cfg)], lines, timeout_per_line=1.0)[0] for cfg in real}
+        if vg:
+            outs["vg"] = C.run_lines(exes[(v, "rel")], lines, timeout_per_line=10, pre=VG, min_timeout=300)[0]
+        compare(corr, f"convert/{CV.variant_name(v)}", "conv", lines, outs, True,
+                lambda j, cfg, v=v, ops=ops: {"source": "convert", "variant": list(v), "op": list(ops[j]), "cfg": cfg})
+
+
 # ------------------------------------------------------------------------------------------------ generation
 def gen(ctx):
     rnd = random.Random(ctx.seed * 15485863 + 15)
@@ -229,10 +246,20 @@ def gen(ctx):
                     while L.prod(sz) > 200 or (lay != "strided" and L.curve_bound(lay, sz) > 1 << 14):
                         sz[rnd.randrange(N)] = 1
                     rw.append((lay, ct, t, N, rnd.choice([1, 2, 3, 4]), sz))
-    return hists, items, stacks, cases, rw
+    conv = []
+    for v in (((2, 0, 1, 0, 0), (3, 1, 2, 0, 0)) if ctx.quick else ((1, 0, 1, 0, 0), (2, 0, 1, 0, 0), (2, 1, 3, 1, 0), (3, 1, 2, 0, 0), (4, 0, 1, 2, 0))):
+        N = v[0]
+        names = ["strided", "mortonT", "mortonF"] + (["hilbert"] if N == 2 else [])
+        for _ in range(10 if ctx.quick else 60):
+            a, b = rnd.choice(names), rnd.choice(names)
+            sz = [rnd.choice([1, 2, 3, 5, 6, 7]) for _ in range(N)]
+            while L.curve_bound("mortonF", sz) > 1 << 12:
+                sz[sz.index(max(sz))] = 2
+            conv.append((v, ("conv", a, b, sz)))
+    return hists, items, stacks, cases, rw, conv
 
 
-def evaluate(ctx, hists, items, stacks, cases, rw, cfgs):
+def evaluate(ctx, hists, items, stacks, cases, rw, cfgs, conv=()):
     corr = Corr()
     vg = "vg" in cfgs
     for o in OBLS:
@@ -246,6 +273,8 @@ def evaluate(ctx, hists, items, stacks, cases, rw, cfgs):
         src_io(ctx, corr, cfgs, stacks, cases, vg)
     if rw:
         src_layout(ctx, corr, cfgs, rw, vg)
+    if conv:
+        src_convert(ctx, corr, cfgs, list(conv), vg)
     if not vg:
         corr.notes.append("valgrind memcheck runs in the thorough tier only")
     corr.violations.sort(key=lambda v: (not v["oracle_fails"], len(str(v["case"]))))
@@ -253,9 +282,9 @@ def evaluate(ctx, hists, items, stacks, cases, rw, cfgs):
 
 
 def run(ctx):
-    hists, items, stacks, cases, rw = gen(ctx)
+    hists, items, stacks, cases, rw, conv = gen(ctx)
     cfgs = ["dbg", "rel"] if ctx.quick else ["dbg", "rel", "vg"]
-    return evaluate(ctx, hists, items, stacks, cases, rw, cfgs)
+    return evaluate(ctx, hists, items, stacks, cases, rw, cfgs, conv)
 
 
 def replay(ctx):
@@ -271,6 +300,9 @@ def replay(ctx):
         return evaluate(ctx, {}, [{"stack": s, "coords": co}], [], [], [], cfgs)
     if src == "layout":
         return evaluate(ctx, {}, [], [], [], [tuple(c["rw"])], cfgs)
+    if src == "convert":
+        op = c["op"]
+        return evaluate(ctx, {}, [], [], [], [], cfgs, [(tuple(c["variant"]), (op[0], op[1], op[2], op[3]))])
     if src == "io":
         corr = Corr()
         for o in OBLS:
